@@ -222,8 +222,10 @@ def h_generated(max_u, mode, cram, document_level=False, convert=False):
         if k != "return" or v.get("passes") is not True:
             doc = (v.get("document") or "") if isinstance(v, dict) else ""
             body = [l[2:] if fmt == "cram" else l for l in doc.split("\n")]
-            body = [l for l in body if l not in ("```scrut", "```", "")]
-            t = body[1] if len(body) > 1 else (body[0] if body else "")
+            body = [l for l in body if l != "" and not l.startswith("```")]
+            # the line written for the output line: the one after the command (documents may carry a title and an inline configuration)
+            at = next((i_ for i_, l in enumerate(body) if l.startswith("$ cmd")), None)
+            t = (body[at + 1] if at is not None and at + 1 < len(body) else "") if at is not None else (body[1] if len(body) > 1 else (body[0] if body else ""))
             core = t
             if not line.endswith(b"\n") and core.endswith(" (no-eol)"):
                 core = core[:-len(" (no-eol)")]          # written by the generator, not part of the line
